@@ -94,7 +94,12 @@ def run_scenario(sc, DDEHistory, failures, counters, factory=None):
                                  input=dict(scenario=sc, y0=np.asarray(y0).tolist() if dt.kind != "c" else str(np.asarray(y0).tolist()), t0=t),
                                  features=dict(method="get_hist_func")))
     keep = []          # caller-side arrays that are mutated after the call (records must be copies)
+    ahead = []         # times queried while they were at / beyond the newest record; asked again (identical value) after later updates
     for i in range(sc["updates"]):
+        if i < 8 or i >= sc["updates"] - 3:
+            for qa_ in (t + 0.375, t, t + 0.125):          # the last one is asked again right after the update (steps are >= 0.25)
+                call("__call__", h, t=qa_)
+                ahead.append(qa_)
         t = t + float(rng.integers(1, 5)) / 4.0
         y = rand_state()
         before_n = h._n
@@ -118,6 +123,11 @@ def run_scenario(sc, DDEHistory, failures, counters, factory=None):
                 failures.append(dict(site="C19/DDEHistory.update", site_class="C19/DDEHistory.update",
                                      clauses=["stored record is not a copy of the argument"],
                                      input=dict(scenario=sc, step=i), features=dict(method="update")))
+        # the same times again, now behind the front (two consecutive queries with the identical argument, updates in between)
+        for qa_ in reversed([q_ for q_ in ahead if q_ <= t]):       # most recently asked first
+            call("__call__", h, t=qa_)
+            call("__call__", h, t=qa_)
+        ahead = [q_ for q_ in ahead if q_ > t]
         # interleaved queries around growth events and at a few other steps
         if i < 6 or i % 257 == 0 or (i & (i + 1)) == 0 or i >= sc["updates"] - 3:
             for q in query_points(recs, rng):
